@@ -448,9 +448,12 @@ Channel(d, a, i) ==
 C12a(g, o, g2) ==
   SweepLike(o) => \A r \in o.db.mb :
      Protected(g, o, r.app, r.id) => Channel(o.db2, r.app, r.id) = Channel(o.db, r.app, r.id)
-\* nothing but sweeps, closes and releases ever removes a channel's rows
+\* nothing but sweeps, closes and releases ever removes a channel's rows:
+\* connecting, disconnecting, the passing of time and stopping the server
+\* lose nothing (activity stamps apart)
+Unstamped(d) == [d EXCEPT !.mb = {[r EXCEPT !.updated = 0] : r \in @}]
 C12b(g, o, g2) ==
-  (o.e.k \in {"Connect", "Drop", "Advance", "Stop", "Crash"}) => o.db2 = o.db
+  (o.e.k \in {"Connect", "Drop", "Advance", "Stop", "Crash"}) => Unstamped(o.db2) = Unstamped(o.db)
 
 (***************************************************************************)
 (* C13  idle channels are swept completely; the store returns to empty     *)
@@ -512,7 +515,6 @@ C15c(g, o, g2) ==   \* the status row counts the subscribed connections
   (C15ante(g, o, g2) /\ o.e.k \in {"Sweep", "Start"}) =>
        /\ Len(o.udb2.cur) = 1
        /\ o.udb2.cur[1].conns = Cardinality({x \in Conns : g2.gc[x].held})
-       /\ o.udb2.cur[1].updated = o.now
 
 InBlur(started, t) == started % Blur = 0 /\ started <= t /\ t < started + Blur
 C16a(g, o, g2) ==
